@@ -19,7 +19,7 @@ LEVEL_TEXT["C01"] = (
 
 PROPS["C01"] = {
     "gen": ["SmallFft", "Consts", "Cmplx"],
-    "lean_props": ["DspVerif.Props.C01Kernels", "DspVerif.Props.C01"],
+    "lean_props": ["DspVerif.Props.C01Kernels", "DspVerif.Props.C01", "DspVerif.Props.C01Pow2", "DspVerif.Props.C01Plan", "DspVerif.Props.C01Czt", "DspVerif.Props.C01Total"],
     "harness": [{"src": "c01.cpp", "cfg": "rel",
                  # the model mirrors the operation order: fft/rfft/fftn/rfftn agree bit-exactly today, 1e-11 of the line maximum tolerates harmless
                  # re-association.  czt (and fftg/rfftg, whose sampled large lengths include primes solved by the same CZT): the library forms the chirp
